@@ -189,7 +189,14 @@ func c04a(c *Ctx) {
 			for _, call := range callsToIn(rbc, f) {
 				n++
 				a := call.Common().Args
-				c.Check(c.term(rbc, a[1]) == "$1" && c.term(rbc, a[2]) == "$2" && c.term(rbc, a[0]) == "$0", "renderBranchComparison/passes-dest/"+f.Name(), c.W.Pos(call.Pos()), "dispatcher passes (sb, dest, scriptName) on", "renderBranchComparison calls "+f.Name()+" with different (sb, dest, scriptName)")
+				okPass := len(a) >= 3 && c.term(rbc, a[1]) == "$1" && c.term(rbc, a[2]) == "$2" && c.term(rbc, a[0]) == "$0"
+				if !okPass && len(a) >= 3 && c.term(rbc, a[0]) == "$0" {
+					// ... or the destination's expression and its label, formatted here
+					okPass = c.term(rbc, a[1]) == "$1.operatorExpression"
+					lf, lops, isT := flatTemplate(a[2], 0)
+					okPass = okPass && isT && lf == "%s_%d" && len(lops) == 2 && c.term(rbc, lops[0]) == "$2" && c.term(rbc, lops[1]) == "$1.id"
+				}
+				c.Check(okPass, "renderBranchComparison/passes-dest/"+f.Name(), c.W.Pos(call.Pos()), "dispatcher passes (sb, dest, scriptName) on", "renderBranchComparison calls "+f.Name()+" with different (sb, dest, scriptName)")
 			}
 		}
 		c.Check(n == 3, "renderBranchComparison/dispatch-count", c.W.FuncPos(rbc), "three comparison kinds", fmt.Sprintf("found %d comparison renderer calls, expected 3", n))
